@@ -259,20 +259,35 @@ pub fn run(rep: &mut Report, thorough: bool, replay: Option<Value>) {
     rep.bound("sizes_P5", json!(p5_sizes));
     rep.bound("programs", 7);
 
+    // Programs that snapshot a top-level singleton can run a tick while idle (their snapshot hook
+    // holds the initial value), which would multiply the schedules of every other program in the
+    // same simulation: each of them gets a simulation of its own; the idle-silent ones share one.
     let mut flow = FlowBuilder::new();
     let node = flow.process::<slices::Node>();
     let (tx1, i1) = node.sim_input::<u32, TotalOrder, ExactlyOnce>();
     let rx1 = slices::batch_snapshot_state(i1).sim_output();
+    let sim1 = flow.sim().compiled();
+
+    let mut flow = FlowBuilder::new();
+    let node = flow.process::<slices::Node>();
+    let (tx4, i4) = node.sim_input::<u32, NoOrder, ExactlyOnce>();
+    let rx4 = slices::unordered_batch_snapshot_state(i4).sim_output();
+    let sim4 = flow.sim().compiled();
+
+    let mut flow = FlowBuilder::new();
+    let node = flow.process::<slices::Node>();
+    let (tx5a, i5a) = node.sim_input::<u32, TotalOrder, ExactlyOnce>();
+    let (tx5b, i5b) = node.sim_input::<u32, TotalOrder, ExactlyOnce>();
+    let rx5 = slices::two_batches_snapshot(i5a, i5b).sim_output();
+    let sim5 = flow.sim().compiled();
+
+    let mut flow = FlowBuilder::new();
+    let node = flow.process::<slices::Node>();
     let (tx2, i2) = node.sim_input::<u32, TotalOrder, ExactlyOnce>();
     let rx2 = slices::batch_state_null(i2).sim_output();
     let (tx3, i3) = node.sim_input::<u32, TotalOrder, ExactlyOnce>();
     let (ack3, out3) = slices::atomic_batch_count(i3);
     let (rx3a, rx3) = (ack3.sim_output(), out3.sim_output());
-    let (tx4, i4) = node.sim_input::<u32, NoOrder, ExactlyOnce>();
-    let rx4 = slices::unordered_batch_snapshot_state(i4).sim_output();
-    let (tx5a, i5a) = node.sim_input::<u32, TotalOrder, ExactlyOnce>();
-    let (tx5b, i5b) = node.sim_input::<u32, TotalOrder, ExactlyOnce>();
-    let rx5 = slices::two_batches_snapshot(i5a, i5b).sim_output();
     let (tx6, i6) = node.sim_input::<(u32, u32), TotalOrder, ExactlyOnce>();
     let rx6 = slices::keyed_batch(i6).sim_output();
     let (tx7, i7) = node.sim_input::<u32, TotalOrder, ExactlyOnce>();
@@ -315,7 +330,7 @@ pub fn run(rep: &mut Report, thorough: bool, replay: Option<Value>) {
                     continue;
                 }
                 judge(&mut st, &case, &mut || {
-                    let r = exhaustive(&sim, async || {
+                    let r = exhaustive(&sim1, async || {
                         let mut got: Vec<R1> = vec![];
                         if pattern == "upfront" {
                             tx1.send_many(inputs(n));
@@ -393,7 +408,7 @@ pub fn run(rep: &mut Report, thorough: bool, replay: Option<Value>) {
                 continue;
             }
             judge(&mut st, &case, &mut || {
-                let r = exhaustive(&sim, async || {
+                let r = exhaustive(&sim4, async || {
                     tx4.send_many_unordered(inputs(n));
                     let got: Vec<R1> = rx4.collect().await;
                     rec.push(Obs::P4(got));
@@ -410,7 +425,7 @@ pub fn run(rep: &mut Report, thorough: bool, replay: Option<Value>) {
                     continue;
                 }
                 judge(&mut st, &case, &mut || {
-                    let r = exhaustive(&sim, async || {
+                    let r = exhaustive(&sim5, async || {
                         tx5a.send_many(inputs(n));
                         tx5b.send_many(101..=100 + nb as u32);
                         let got: Vec<R5> = rx5.collect().await;
